@@ -11,6 +11,12 @@ closed in BlobFile._write_blob, and a few more db-write boundaries.  A second, f
 then starts a new manager on the same directory + database twice (new objects each time) and
 reports what it saw; ground truth (directory listing, `select blob_hash,status from blob`) is
 taken by vlib/ref/blobbook.py, which also holds the oracle Z1-Z4 (shares no code with lbry).
+Histories tie claims to streams that have a file entry (what `publish` / a download from a claim
+leave behind) and remove sd blob files behind the manager's back; once a directory holds such a
+stream, each of the two fresh starts goes on in the daemon's order - the real StreamManager.start()
+after BlobManager.setup(): it rebuilds streams whose sd blob file is missing (on disk, or in memory
+only with save_blobs off) and calls the blob manager's reconciliation as its second caller - and
+Z1-Z4 are judged once more on the state at the END of that start-up (keys .../after-stream-manager-start).
 """
 import asyncio
 import atexit
@@ -30,12 +36,14 @@ from vlib.ref import blobbook
 
 ID = 'C18'
 LEVEL = 'exploration'
-RULE = ('case = (history of <=40 operations derived from a seed: dl/publish/remote-stream/delete(+-db)/delete-stream/'
-        'rm-behind-back/add-behind-back[genuine, junk content, zero length, known hash, junk names, loose names, '
+RULE = ('case = (history of <=40 operations derived from a seed: dl/publish(+-file entry, +-claim)/remote-stream(+-file entry and claim)/delete(+-db)/delete-stream/'
+        'rm-behind-back/rm-of-a-stream-sd-blob-behind-back/add-behind-back[genuine, junk content, zero length, known hash, junk names, loose names, '
         'directories, genuine file larger than the 2 MiB blob limit, blob file living on a second volume and '
         'symlinked into the blob directory (new one / a known one moved there and linked back)]/bulk orphan files around the 500 batch boundary/quiesce/in-process restart/end[clean, stop-only, '
-        'abrupt]; one fixed history per shard that links + oversizes before anything else; config save_blobs on/off; one crash point (kind, phase, n) or none) followed by two fresh-process '
-        'starts; 30% of the cases chain 2-3 such epochs on the same directory + database.  thorough additionally '
+        'abrupt]; one fixed history per shard that links + oversizes before anything else, one that publishes / downloads claimed streams and '
+        'loses two of their sd blob files (restart with save_blobs on / off by shard parity); config save_blobs on/off; one crash point (kind, phase, n) or none) followed by two fresh-process '
+        'starts (BlobManager.setup(), observed; then, when the directory holds a claimed stream, StreamManager.start() as the daemon does, observed again); '
+        '30% of the cases chain 2-3 such epochs on the same directory + database.  thorough additionally '
         'enumerates EVERY crash point (all kinds, phases, n) of the last history of each enumerated case.  '
         'distinct = hash(per epoch: history seed, length, profile, crash point); non-trivial = some first start had '
         'something to reconcile (a genuine blob file without a `finished` row, or a `finished` row without file)')
@@ -46,6 +54,9 @@ ASSUMPTIONS = [
     'the first start may report fewer blobs than files present (statement asks equality only for the further restart)',
     'in-process restarts are observed only at quiescent points (all add_blobs tasks awaited)',
     'failpoint n-th-call numbering is deterministic up to thread completion order; witnesses carry the pre-start state',
+    'a start in the daemon order is observed at a quiescent point: StreamManager.start() has returned and the add_blobs tasks '
+    'begun by blob_completed during it were awaited; reflect_streams is off (no network), no wallet / DHT node is attached; '
+    'when StreamManager.start() raises, what it left half way is logged, not judged',
 ]
 REQUIRED_HITS = [
     'Z1.checked', 'Z1.completed_hashes', 'Z2.files', 'Z3.rows', 'Z4.checked', 'Z4.files',
@@ -57,6 +68,10 @@ REQUIRED_HITS = [
     'crash.fired.add_blobs.exit', 'crash.fired.blob_completed.entry', 'crash.fired.blob_completed.exit',
     'end.clean', 'end.abrupt', 'op.dl', 'op.publish', 'op.remote_stream', 'op.del', 'op.del_keep_db', 'op.rm', 'op.add',
     'inproc.restarts', 'inproc.same_manager', 'op.peek', 'restart.fresh_process',
+    'op.rm_sd', 'daemon.starts', 'daemon.Z1.checked', 'daemon.Z1.completed_hashes', 'daemon.Z1.announced_hashes', 'daemon.Z2.files',
+    'daemon.Z3.checked', 'daemon.Z4.checked', 'daemon.Z4.files', 'daemon.class.claimed_stream_sd_file_missing.save_blobs_on',
+    'daemon.class.claimed_stream_sd_file_missing.save_blobs_off',
+    'daemon.class.claimed_stream_sd_file_missing_content_blob_files_present',
 ]
 MAXB = 2 * 2 ** 20
 BULK_NS = [501, 502, 1003, 1002, 500, 499, 777, 600]
@@ -94,6 +109,10 @@ def shard_setup(rec, tier):
     import lbry.extras.daemon.storage  # noqa: F401
     import lbry.blob.blob_manager  # noqa: F401
     import lbry.stream.descriptor  # noqa: F401
+    import lbry.stream.stream_manager  # noqa: F401
+    import lbry.schema.claim  # noqa: F401
+    import lbry.dht.protocol.data_store  # noqa: F401
+    import lbry.dht.peer  # noqa: F401
     import threading
     if threading.active_count() != 1:
         raise RuntimeError('shard process is not single threaded before forking')
@@ -131,11 +150,15 @@ def gen_cases(rng, tier, shard, nshards):
         return False
     def vol2(first_seed):   # one fixed, cheap history per shard (its seed derived without drawing from rng)
         return {'fam': 'one', 'seed': (first_seed * 2654435761 + shard + 1) % 2 ** 40, 'nops': 3, 'profile': 'vol2', 'crash': None}
+    def daemon(first_seed):     # one more fixed history per shard: claimed streams whose sd blob file is gone at the next start
+        return {'fam': 'one', 'seed': (first_seed * 40503 + 7 * shard + 3) % 2 ** 40, 'nops': 0, 'profile': 'daemon%d' % (shard % 2),
+                'crash': None}
     if tier == 'quick':
         first = rng.getrandbits(40)
         yield {'fam': 'one', 'seed': first, 'nops': 4, 'profile': 'bulk%d' % BULK_NS[shard % len(BULK_NS)],
                'crash': None}
         yield vol2(first)
+        yield daemon(first)
         for i in range(420):
             if budget_gone():
                 return
@@ -144,6 +167,7 @@ def gen_cases(rng, tier, shard, nshards):
         first = rng.getrandbits(40)
         yield {'fam': 'enum', 'seed': first, 'nops': 3, 'profile': 'bulk%d' % BULK_NS[shard % len(BULK_NS)]}
         yield vol2(first)
+        yield daemon(first)
         for i in range(4000):
             if budget_gone():
                 return
@@ -202,6 +226,21 @@ def gen_history(seed, nops, profile, epoch=0):
         nadd = 3
         if r.random() < 0.5:
             ops.append(['restart', r.choice([False, True, 'same'])])
+    if profile.startswith('daemon'):
+        # what a daemon start has to cope with beyond the blob manager's own scan: streams with a file entry and a claim
+        # (published here, downloaded from somebody else) whose sd blob file is missing at the next start while their
+        # content blob files are still there; 'daemon0' restarts with save_blobs on, 'daemon1' with save_blobs off
+        conf['save_blobs'] = True
+        conf['restart_save_blobs'] = profile != 'daemon1'
+        ops.append(['publish', 0, 5000, 'claimed'])
+        ops.append(['publish', 1, 70000, 'claimed'])
+        ops.append(['remote_stream', 0, 5000, 15, True, 'db'])
+        npub, nrem = 2, 1
+        ops.append(['quiesce'])
+        ops.append(['rm_sd', 0])
+        ops.append(['rm_sd', 2])
+        if r.random() < 0.5:
+            ops.append(['restart', r.choice([False, True, 'same'])])
     sizes = [1, 2, 15, 16, 17, 100, 1000, 1000, 4096, 4096, 65536]
     for _ in range(nops):
         x = r.random() * 100
@@ -221,7 +260,8 @@ def gen_history(seed, nops, profile, epoch=0):
                 j = npub
                 npub += 1
             size = r.choice([1, 15, 16, 17, 1000, 5000, 70000]) if r.random() > 0.03 else MAXB + 5
-            ops.append(['publish', j, size, r.choices(['full', 'no_file', 'no_store'], weights=[6, 2, 2])[0]])
+            # 'claimed': as `publish` / `stream_create` leave it (stream + file entry + the claim tied to it), 'full': no claim yet
+            ops.append(['publish', j, size, r.choices(['claimed', 'full', 'no_file', 'no_store'], weights=[4, 2, 2, 2])[0]])
         elif x < 45:
             j = nrem
             nrem += 1
@@ -238,8 +278,10 @@ def gen_history(seed, nops, profile, epoch=0):
             ops.append(['del', ks, r.random() < 0.5, special])
         elif x < 62:
             ops.append(['del_stream', r.getrandbits(16)])
-        elif x < 71:
+        elif x < 68:
             ops.append(['rm', r.getrandbits(16)])
+        elif x < 71:
+            ops.append(['rm_sd', r.getrandbits(16)])     # the sd blob file of a stream of this history, its content blobs stay
         elif x < 84:
             cls = r.choices(['genuine', 'valid_junk', 'valid_empty', 'known', 'junk_short', 'junk_long', 'junk_upper',
                              'junk_text', 'loose_comma', 'loose_newline', 'dir_junk', 'dir_hash', 'dir_known',
@@ -551,9 +593,28 @@ class Driver:
             return
         ok, _ = await self.lb('publish.store_stream', lambda: self.storage.store_stream(
             self.bm.get_blob(desc.sd_hash, is_mine=True), desc))
-        if ok and mode == 'full':
-            await self.lb('publish.save_published_file', lambda: self.storage.save_published_file(
+        if ok and mode in ('full', 'claimed'):
+            ok, _ = await self.lb('publish.save_published_file', lambda: self.storage.save_published_file(
                 desc.stream_hash, os.path.basename(src), os.path.dirname(src), 0))
+            if ok and mode == 'claimed':
+                await self.attach_claim(desc, 'publish')
+
+    async def attach_claim(self, desc, tag):
+        """what `publish` / a download from a claim do next: remember the claim and tie it to the stream's file entry (only
+        such streams are loaded - and, with their sd blob file missing, rebuilt - by the stream manager at the next start)"""
+        from lbry.schema.claim import Claim
+        self.emit({'t': 'claiming', 'sd': desc.sd_hash, 'blobs': [b.blob_hash for b in desc.blobs[:-1]]})
+        claim = Claim()
+        claim.stream.source.sd_hash = desc.sd_hash
+        ident = hashlib.sha256(b'claim for ' + desc.sd_hash.encode()).hexdigest()
+        ok, _ = await self.lb(tag + '.save_claims', lambda: self.storage.save_claims([{
+            'claim_id': ident[:40], 'name': 'c18-' + ident[:8], 'amount': '1.0', 'address': 'bT6wc54qiUUYt34HQF9wnW8b2o2yQTXf2S',
+            'txid': ident, 'nout': 0, 'value': claim, 'height': -1, 'claim_sequence': -1}]))
+        if ok:
+            ok, _ = await self.lb(tag + '.save_content_claim', lambda: self.storage.save_content_claim(
+                desc.stream_hash, ident + ':0'))
+        if ok:
+            self.emit({'t': 'note', 'what': tag + '.claim_tied_to_stream'})
 
     async def op_remote_stream(self, j, size, mask, save_file, wait):
         """a stream somebody else published: sd blob downloaded, store_stream (pending rows for all its
@@ -589,8 +650,10 @@ class Driver:
             return
         self.streams.append({'desc': desc, 'hashes': [sd] + [b.blob_hash for b in desc.blobs[:-1]]})
         if save_file:
-            await self.lb('remote.save_downloaded_file', lambda: self.storage.save_downloaded_file(
+            ok, _ = await self.lb('remote.save_downloaded_file', lambda: self.storage.save_downloaded_file(
                 desc.stream_hash, None, None, 0))
+            if ok:
+                await self.attach_claim(desc, 'remote')
         for n, b in enumerate(desc.blobs[:-1]):
             if mask >> (n % 4) & 1:
                 await self.download(b.blob_hash, blobs[b.blob_hash], 'two', wait, 1, 'remote_blob')
@@ -609,6 +672,7 @@ class Driver:
         # mirrors StreamManager.delete
         ok, _ = await self.lb('del_stream.delete_blobs', lambda: self.bm.delete_blobs(s['hashes'], delete_from_db=False))
         await self.lb('del_stream.delete_stream', lambda: self.storage.delete_stream(s['desc']))
+        self.emit({'t': 'unclaimed', 'sd': s['hashes'][0]})
 
     def op_rm(self, k):
         h = self.pick(k)
@@ -617,6 +681,16 @@ class Driver:
             if os.path.isfile(p):
                 os.remove(p)
                 return True
+        return False
+
+    def op_rm_sd(self, k):
+        """behind the manager's back: the sd blob file of one of this history's streams goes, its content blob files stay"""
+        if not self.streams:
+            return False
+        p = os.path.join(self.bdir, self.streams[k % len(self.streams)]['hashes'][0])
+        if os.path.isfile(p):
+            os.remove(p)
+            return True
         return False
 
     def op_add(self, cls, idx, k, size, hexname):
@@ -776,6 +850,8 @@ class Driver:
                 await self.op_del_stream(*op[1:])
             elif name == 'rm':
                 self.op_rm(*op[1:])
+            elif name == 'rm_sd':
+                self.op_rm_sd(*op[1:])
             elif name == 'add':
                 self.op_add(*op[1:])
             elif name == 'bulk_add':
@@ -820,20 +896,68 @@ def run_history(work, hist, seed, crash, epoch=0):
 
 
 # --------------------------------------------------------------------------- restart child
-def run_restarts(work, save_blobs):
+def run_restarts(work, save_blobs, with_stream_manager=False):
+    """two fresh starts: database, BlobManager.setup() [observed]; with_stream_manager (some history on this directory tied
+    a claim to a stream with a file entry): each start goes on in the daemon's order and starts the stream manager, which
+    loads those streams and rebuilds the ones whose sd blob file is missing - through the blob manager's own
+    reconciliation, as its second caller [observed again once the database writes it started have landed]"""
     bdir = os.path.join(work, 'blobs')
     dbpath = os.path.join(work, 'db', 'lbrynet.sqlite')
+    dldir = os.path.join(work, 'downloads')
+    os.makedirs(dldir, exist_ok=True)
 
     def child(emit):
         from lbry.conf import Config
         from lbry.extras.daemon.storage import SQLiteStorage
         from lbry.blob.blob_manager import BlobManager
+        from lbry.stream.stream_manager import StreamManager
         loop = asyncio.new_event_loop()
         asyncio.set_event_loop(loop)
+        tasks = []
+        real_bc = BlobManager.blob_completed
+
+        def blob_completed(self, blob):     # only to know when the database writes it starts are over
+            t = real_bc(self, blob)
+            tasks.append(t)
+            return t
+        BlobManager.blob_completed = blob_completed
+
+        def brief(e):
+            return {'exc': type(e).__name__, 'frame': _innermost_lbry_frame(e), 'msg': str(e)[:200]}
+
+        async def stream_manager_phase(conf, storage, bm):
+            sm = StreamManager(loop, conf, bm, None, storage, None)
+            err = None
+            try:
+                await sm.start()
+            except Exception as e:  # noqa  - logged; the state it leaves is not judged
+                err = brief(e)
+            for _ in range(50):             # quiescent point, as a running daemon reaches it moments after start-up
+                for _i in range(3):
+                    await asyncio.sleep(0)
+                pending = [t for t in tasks if not t.done()]
+                if not pending:
+                    break
+                await asyncio.gather(*pending, return_exceptions=True)
+            del tasks[:]
+            completed = sorted(bm.completed_blob_hashes)
+            announced = None
+            try:
+                announced = sorted(await storage.get_blobs_to_announce())
+            except Exception as e:  # noqa
+                err = err or brief(e)
+            loaded = sorted(sm.streams)
+            post_disk, post_db = blobbook.snap_disk(bdir), blobbook.snap_db(dbpath, live=True)
+            try:
+                await sm.stop()
+            except Exception as e:  # noqa
+                err = err or brief(e)
+            return {'error': err, 'completed': completed, 'announced': announced, 'loaded': loaded,
+                    'post_disk': post_disk, 'post_db': post_db}
 
         async def one_start(with_data_store):
             pre_disk, pre_db = blobbook.snap_disk(bdir), blobbook.snap_db(dbpath)
-            conf = Config(save_blobs=save_blobs, announce_head_and_sd_only=False)
+            conf = Config(save_blobs=save_blobs, announce_head_and_sd_only=False, reflect_streams=False, download_dir=dldir)
             storage = SQLiteStorage(conf, dbpath, loop)
             await storage.open()
             ds = None
@@ -846,19 +970,23 @@ def run_restarts(work, save_blobs):
             try:
                 await bm.setup()
             except Exception as e:  # noqa  - judged through the state it leaves
-                err = {'exc': type(e).__name__, 'frame': _innermost_lbry_frame(e), 'msg': str(e)[:200]}
+                err = brief(e)
             completed = sorted(bm.completed_blob_hashes)
             announced = None
             try:
                 announced = sorted(await storage.get_blobs_to_announce())
             except Exception as e:  # noqa
-                err = err or {'exc': type(e).__name__, 'frame': _innermost_lbry_frame(e), 'msg': str(e)[:200]}
+                err = err or brief(e)
             ds_view = None if ds is None else sorted(ds.completed_blobs)
+            post_disk, post_db = blobbook.snap_disk(bdir), blobbook.snap_db(dbpath, live=True)
+            daemon = None
+            if with_stream_manager and err is None:
+                daemon = await stream_manager_phase(conf, storage, bm)
             bm.stop()
             await storage.close()
-            post_disk, post_db = blobbook.snap_disk(bdir), blobbook.snap_db(dbpath)
             emit({'t': 'start', 'setup_error': err, 'pre_disk': pre_disk, 'pre_db': pre_db, 'completed': completed,
-                  'announced': announced, 'post_disk': post_disk, 'post_db': post_db, 'data_store_view': ds_view})
+                  'announced': announced, 'post_disk': post_disk, 'post_db': post_db, 'data_store_view': ds_view,
+                  'daemon': daemon})
         loop.run_until_complete(one_start(False))
         loop.run_until_complete(one_start(True))     # new storage + manager objects, nothing changed in between
         return 0
@@ -875,13 +1003,15 @@ def _brief_state(disk, db):
     return {k: v for k, v in sorted(c.items())}
 
 
-def judge_start(rec, tag, obs, further, ctx, case):
+def judge_start(rec, tag, obs, further, ctx, case, point=None):
+    """point: None = right after BlobManager.setup() returned; 'after-stream-manager-start' = the same clauses at the end of a
+    start-up in the daemon's order (counters / logs prefixed 'daemon.', mechanism keys suffixed with the point)"""
     findings, counters, logged = blobbook.evaluate(obs['pre_disk'], obs['pre_db'], obs['completed'], obs.get('announced'),
                                                    obs['post_disk'], obs['post_db'], further)
     for k, v in counters.items():
-        rec.hit(k, v)
+        rec.hit(('daemon.' if point else '') + k, v)
     for k, v in logged.items():
-        rec.log(k, v)
+        rec.log(('daemon.' if point else '') + k, v)
     if obs.get('data_store_view') is not None:
         # observed, not judged here: the DHT data store's view of what is completed (C18 is stated on the manager)
         rec.log('data_store.completed_blobs_' + ('same_as_manager' if obs['data_store_view'] == obs['completed']
@@ -891,6 +1021,8 @@ def judge_start(rec, tag, obs, further, ctx, case):
         rec.log(f"setup_raised.{err['exc']}@{err['frame']}")
     for suffix, what, detail in findings:
         key = f'{ID}/{suffix}'
+        if point:
+            key += '/' + point
         if err:
             key += f"/setup-raised:{err['exc']}@{err['frame']}"
         rec.violation(key, f'[{tag}] {what}; history seed={case["seed"]} nops={case["nops"]} profile={case["profile"]} '
@@ -904,6 +1036,50 @@ def judge_start(rec, tag, obs, further, ctx, case):
     return bool(findings)
 
 
+def judge_daemon_start(rec, tag, start, further, ctx, case, claimed, save_blobs):
+    """the start went on in the daemon's order (stream manager started, its database writes landed): the statement's clauses
+    once more on what is reported / announced / recorded / on disk THEN, relative to the state before the start"""
+    d = start['daemon']
+    rec.hit('daemon.starts')
+    pre_disk = start['pre_disk']
+
+    def has_file(disk, h):
+        return h in disk and disk[h][0] in blobbook.FILE_KINDS
+    # input classes, from the harness's own record of the streams it tied claims to (they may have been deleted since)
+    missing = [sd for sd in claimed if not has_file(pre_disk, sd)]
+    if missing:
+        rec.hit('daemon.class.claimed_stream_sd_file_missing.save_blobs_' + ('on' if save_blobs else 'off'))
+        if any(has_file(pre_disk, h) for sd in missing for h in claimed[sd]):
+            rec.hit('daemon.class.claimed_stream_sd_file_missing_content_blob_files_present')
+        if any(sd in d['loaded'] for sd in missing):
+            rec.hit('daemon.stream_loaded_although_sd_file_was_missing')
+        if any(has_file(d['post_disk'], sd) for sd in missing):
+            rec.hit('daemon.sd_file_rebuilt_on_disk')
+        if any(sd in d['loaded'] and not has_file(d['post_disk'], sd) for sd in missing):
+            rec.hit('daemon.sd_blob_rebuilt_in_memory_only')
+    rec.hit('daemon.streams_loaded', len(d['loaded']))
+    if d['error']:
+        # the stream manager (or the announce query after it) raised: whatever it left half way is logged, not judged
+        rec.log(f"daemon.stream_manager_raised.{d['error']['exc']}@{d['error']['frame']}")
+        return False
+    # logged, not judged (the unchanged tree does it; reported to the maintainer): a file under a blob's name whose content is
+    # NOT that blob (junk / zero length - a class Z1 / Z2 only log anyway) was there before the start, the stream manager
+    # found it unparsable as the sd blob of a stream and removed it from the disk behind the blob manager's back, which goes on
+    # reporting it
+    def start_deleted_corrupt_file(h):
+        return has_file(pre_disk, h) and pre_disk[h][2] is not True and h not in d['post_disk']
+    reported = {}
+    for label in ('completed', 'announced'):
+        reported[label] = d[label]
+        if d[label] is not None:
+            reported[label] = [h for h in d[label] if not start_deleted_corrupt_file(h)]
+            if len(reported[label]) != len(d[label]):
+                rec.log(f'daemon.Z1.{label}_blob_whose_corrupt_file_the_stream_manager_deleted', len(d[label]) - len(reported[label]))
+    obs = {'pre_disk': pre_disk, 'pre_db': start['pre_db'], 'completed': reported['completed'], 'announced': reported['announced'],
+           'post_disk': d['post_disk'], 'post_db': d['post_db']}
+    return judge_start(rec, tag, obs, further, ctx, case, point='after-stream-manager-start')
+
+
 def run_one(rec, case):
     """a chain of epochs (usually one): history (+ optional crash point) on the real code, then two
     fresh-process starts which are judged; returns the failpoint counts of the LAST history when it ran
@@ -912,6 +1088,7 @@ def run_one(rec, case):
     epochs = [dict(e) for e in (case.get('prev') or [])] + [{k: case.get(k) for k in keys}]
     work = tempfile.mkdtemp(prefix='h-', dir=_STATE['base'])
     nontrivial, sample, counts, code = False, None, None, None
+    claimed = {}            # the harness's own record: sd hash -> content blob hashes of the streams it tied a claim to
     try:
         for ei, ep in enumerate(epochs):
             seed, nops, profile, crash = (ep.get(k) for k in keys)
@@ -932,6 +1109,8 @@ def run_one(rec, case):
                     rec.log('note.' + ln['what'])
                 elif t == 'crashing':
                     ctx['crash_line'] = ln
+                elif t == 'claiming':
+                    claimed[ln['sd']] = ln['blobs']
             for op in hist['ops'][:len(executed)]:
                 if op[0] == 'del' and not op[2]:
                     rec.hit('op.del_keep_db')
@@ -960,7 +1139,7 @@ def run_one(rec, case):
                 if not ob['setup_ok']:
                     rec.log('inproc.setup_raised')
                 judge_start(rec, f'epoch {ei}: in-process restart #{n + 1}', ob, False, ctx, this_case)
-            starts = run_restarts(work, hist['conf']['restart_save_blobs'])
+            starts = run_restarts(work, hist['conf']['restart_save_blobs'], with_stream_manager=bool(claimed))
             rec.hit('restart.fresh_process', 2)
             s0 = blobbook.classify(starts[0]['pre_disk'], starts[0]['pre_db'])
             for k in s0:
@@ -972,6 +1151,11 @@ def run_one(rec, case):
                 nontrivial = True
             judge_start(rec, f'epoch {ei}: first start after the history', starts[0], False, ctx, this_case)
             judge_start(rec, f'epoch {ei}: further restart, nothing changed', starts[1], True, ctx, this_case)
+            for st, further, tag in ((starts[0], False, 'first start after the history'),
+                                     (starts[1], True, 'further restart, nothing changed')):
+                if st.get('daemon'):
+                    judge_daemon_start(rec, f'epoch {ei}: {tag}, after the stream manager started', st, further, ctx,
+                                       this_case, claimed, hist['conf']['restart_save_blobs'])
             if ei == len(epochs) - 1 and len(rec.samples) < 4 and nontrivial:
                 sample = {'case': case, 'ops_last_epoch': hist['ops'][:12], 'conf': hist['conf'], 'history_exit': code,
                           'state_before_first_start': s0, 'completed_first_start': len(starts[0]['completed']),
